@@ -123,6 +123,8 @@ def generate(seed, tier="quick"):
                       {"op": "set_ncomp", "branch": o.randrange(64), "n": o.randint(1, 5)}, {"op": "delete_stimuli", "view": []}]
         elif k < 0.3:
             calls.append({"op": "set_ncomp_all", "n": o.randint(1, 4)})
+        elif k < 0.36 and shape["kind"] == "cell":
+            calls.append({"op": "loop_set_ncomp", "ns": [o.choice([None, None, 1, 2, 3, 4]) for _ in range(6)]})
         elif k < 0.42:
             # refused call in the middle of the sequence: a branch made non-uniform is re-discretised (must be refused),
             # made uniform again, and the sequence goes on — the refused call must have left nothing behind
@@ -187,6 +189,53 @@ def execute(program):
                 w.violate("copy_equal", "copy between set_ncomp calls differs: " + "; ".join(snap.diff(a, b)[:3]), i)
             w.m = m2
             w.bump("fault_persist_" + c["how"])
+        elif c["op"] == "loop_set_ncomp":
+            # the natural "for branch in cell.branches: branch.set_ncomp(n)" loop: every view is produced by the iterator
+            # *after* the previous call changed the compartment structure
+            from ..refmodule import Reject as _Reject, Unspec as _Unspec
+
+            ns = c["ns"]
+            try:
+                with quiet():
+                    it = iter(w.m.branches)
+                    for b_ in range(len(w.ref.ncomp_per_branch)):
+                        br = next(it)
+                        n_ = ns[b_ % len(ns)]
+                        if n_ is None:
+                            continue
+                        rvb = w.ref.root().at("branch", [b_])
+                        keep = w.ref.clone()
+                        try:
+                            w.ref.set_ncomp(rvb, n_)
+                            expect_raise = False
+                        except _Reject:
+                            w.ref = keep
+                            expect_raise = True
+                        except _Unspec:
+                            w.ref = keep
+                            w.stopped = "loop_set_ncomp: unspecified"
+                            break
+                        try:
+                            br.set_ncomp(n_)
+                            raised_ = False
+                        except Exception as e:  # noqa: BLE001
+                            if exc_in_harness(e):
+                                raise HarnessError(str(e)) from e
+                            raised_ = True
+                            if not expect_raise:
+                                w.violate("setncomp_surroundings", f"set_ncomp({n_}) on branch {b_} inside a loop over cell.branches raised {exc_text(e)}", i)
+                                break
+                        if expect_raise and not raised_:
+                            w.stopped = "loop_set_ncomp: predicted refusal accepted"
+                            break
+                        w.bump("op_set_ncomp")
+                w.bump("fault_knob_loop_over_branches")
+            except HarnessError:
+                raise
+            if not w.violations and not w.stopped:
+                d_ = conform(w.ref, w.m)
+                if d_:
+                    w.violate("setncomp_surroundings", "after set_ncomp calls inside a loop over cell.branches: " + "; ".join(d_[:4]), i)
         elif c["op"] == "set_ncomp_all":
             before = snap.snapshot(w.m, with_xyzr=False)
             try:
@@ -232,6 +281,18 @@ def execute(program):
                             w.violate("setncomp_equals_direct", f"branch {b} after set_ncomp({c['n']}): {col} {g_} but read_swc(ncomp={c['n']}) gives {e_}", i)
                             break
         i += 1
+    if w.stopped or w.violations:
+        return res()
+    # a module-level trainable after the sequence: one shared parameter for the whole cell (nothing of the per-branch
+    # calls may linger in the sharing bookkeeping)
+    j0 = i
+    for op_ in ({"op": "make_trainable", "view": [], "key": "radius", "init": None, "seed": 1}, {"op": "delete_trainables", "view": []}):
+        before_v = len(w.violations)
+        apply_op(w, op_, j0)
+        j0 += 1
+        for v in w.violations[before_v:]:
+            if v["oracle"] in ("tables_conform", "structural_invariant"):
+                v["oracle"] = "setncomp_surroundings"
     if w.stopped or w.violations:
         return res()
     # ---- (i) tables equal a directly built module (hand-built cells)
